@@ -102,6 +102,8 @@ func initTargets() {
 			n++
 		}
 	}
+	// a generic instantiation (its wrapper is decoded before the patch lock is taken)
+	mk("G1", 20, t.GenInt, t.GenK, -1)
 	for i := range t.Bs {
 		if i != far && n <= 9 {
 			ph := -1
@@ -207,6 +209,12 @@ func mockerBody(tg *target, out *[]obs, yield func(string)) {
 		})
 		yield("after-apply")
 		*out = append(*out, obs{tg.name, "after Apply(cb calling origin)", tg.fn(arg), arg + tg.k + 50000})
+	} else if tg.name == "G1" {
+		// a callback on a generic function receives the type dictionary in place of its first
+		// argument (recorded in DESIGN 9.4, outside the statements): the generic target is stubbed
+		b.Func(tg.fn).Return(arg + 60000)
+		yield("after-apply")
+		*out = append(*out, obs{tg.name, "after Return(v1)", tg.fn(arg), arg + 60000})
 	} else {
 		b.Func(tg.fn).Apply(func(a int) int { return a + 60000 })
 		yield("after-apply")
@@ -379,6 +387,7 @@ func scenarios(thorough bool) []Scn {
 		{"other-page/2mockers+1caller", []string{"F1", "F3"}, 1, 3, ""},
 		{"same-page/1mocker+2callers", []string{"F2"}, 2, 2, ""},
 		{"sequence/2callers", nil, 2, 2, "sequence"},
+		{"generic+plain/2mockers", []string{"G1", "F1"}, 0, 0, ""},
 	}
 	if thorough {
 		s = append(s,
@@ -394,7 +403,7 @@ func warmUp() {
 	// one free run of every body fills goom's caches (function sizes, symbol alignment), so
 	// explored executions are identical to each other
 	var sink []obs
-	for _, name := range []string{"F1", "F2", "F3"} {
+	for _, name := range []string{"F1", "F2", "F3", "G1"} {
 		mockerBody(targets[name], &sink, func(string) {})
 	}
 	b0 := installSteady()
